@@ -170,6 +170,41 @@ def gen_family(out, wide, tier, rng):
             for d in range(0, size - n + 1):
                 for s in range(0, size - n + 1):
                     out.append(f"{nm['memmove']} {L(buf)} {d} {s} {n}")
+    # ---- review round -------------------------------------------------------------------------------------------
+    # counts far beyond the arrays (legal C: strncmp/strncat on terminated strings, memchr when a match exists):
+    # a count type narrower than size_t, a signed count or count arithmetic that wraps shows up only here
+    BIG = [2**31, 2**32, 2**32 + 1, 2**63, 2**64 - 1]
+    Sb = strings(alpha, 2)
+    for a in Sb:
+        for b in Sb:
+            A, B = L(a + [0]), L(b + [0, hi])
+            for n in BIG:
+                out.append(f"{nm['strncmp']} {A} {B} {n}")
+                dst = a + [0] + [201 + j for j in range(len(b) + (n % 2))]
+                out.append(f"{nm['strncat']} {L(dst)} {L(b + [0])} {n}")
+    if not wide:   # (wmemchr: ISO C has no "stops at the first match" sentence for it)
+        for a in strings([0, 97, hi], 2):
+            for ch in (0, 97, hi):
+                if ch in a:
+                    for n in BIG:
+                        out.append(f"memchr {L(a)} {ch} {n}")
+    # memmove between two different allocations, destination at the lower / at the higher address
+    for ld in range(0, 5):
+        for ls in range(0, 5):
+            for n in range(0, min(ld, ls) + 1):
+                for first in (0, 1):
+                    out.append(f"{nm['memmove']}2 {L([201 + k for k in range(ld)])} {L(([0, 97, hi, 98, 0])[:ls])} {n} {first}")
+    # null-pointer arguments: contract checks of the front ends, strrchr's null extension
+    pre = "wcs" if wide else "str"
+    for w in (1, 2, 3):
+        out.append(f"{pre}cpy_null {w}")
+        out.append(f"{pre}ncpy_null {w}")
+        if not wide:
+            out.append(f"memmove_null {w}")
+    for ch in (0, 97):
+        out.append(f"{pre}rchr_null {ch}")
+        if not wide:
+            out.append(f"strchr_null {ch}")
     # ---- seeded random longer inputs
     R = 150 if tier == "quick" else (1500 if tier == "search" else 4000)
 
@@ -223,6 +258,8 @@ def gen_family(out, wide, tier, rng):
         if size:
             n2 = rng.randint(0, size)
             out.append(f"{nm['memmove']} {L(ra)} {rng.randint(0, size - n2)} {rng.randint(0, size - n2)} {n2}")
+        out.append(f"{nm['memmove']}2 {L([7] * (m + rng.choice([0, 3])))} {L(ra)} {m} {rng.randint(0, 1)}")
+        out.append(f"{nm['strncmp']} {A} {B} {rng.choice([2**32, 2**64 - 1, 2**63 + rng.randint(0, 2**62)])}")
 
 
 # witnesses of the seven repaired defects and the inputs that exposed the hand-made mutations (NOTES.md); run first
